@@ -29,6 +29,18 @@ def out_json(obj, **opts):
     return json.loads(obj.serialize(**opts)) if hasattr(obj, "serialize") else obj
 
 
+def message_of(e, line):
+    """the text of a reported error; an error of the documented family whose own message cannot be produced (its __str__ raises) still lets an internal error
+    escape as soon as the caller looks at it: the line is marked as outside the family, naming both"""
+    try:
+        return str(e)
+    except Exception as inner:  # noqa
+        line["exc"] = "%s.__str__ raised %s" % (type(e).__name__, type(inner).__name__)
+        if "family" in line:
+            line["family"] = False
+        return "<message cannot be rendered>"
+
+
 def is_obs20(key, v):
     return v == "2.0" and key.startswith("observables:")
 
@@ -179,7 +191,7 @@ def accept_one(v, key, how, d, wrap):
             line["differs"] = sorted(k for k in d if k not in out or not same_value(d[k], out[k]))
     except Exception as e:  # noqa
         line["exc"] = type(e).__name__
-        line["msg"] = str(e)[:200]
+        line["msg"] = message_of(e, line)[:200]
     return line
 
 
@@ -193,6 +205,13 @@ def corruptions(g, key, base, rng, quick):
     out = []
     for d in t["properties"]:
         n = d["name"]
+        if (n in base or d["kind"] == "objectreference" or (d["kind"] == "list" and d["contained"]["kind"] == "objectreference")) and (d["kind"] in ("reference", "objectreference") or (d["kind"] == "list" and d["contained"]["kind"] in ("reference", "objectreference"))):
+            # (2.0 container references are not in the generated instances: they are put in here)
+            # structured junk and text with formatting characters where a reference is expected (references end up inside error messages)
+            for nm, val in (("ref_object", {"a": 1}), ("ref_object_braces", {"{0}": "{x.y}"}), ("ref_text_braces", "{0.reason} {x} %s %(a)s"), ("ref_number", 7), ("ref_null", None)):
+                x = copy.deepcopy(base)
+                x[n] = copy.deepcopy(val) if d["kind"] != "list" else [copy.deepcopy(val)]
+                out.append(("%s:%s" % (n, nm), x))
         if n not in base:
             continue
         if d["jsonreq"] and "fixed" not in d and d.get("default") not in ("UUID4", "NOW"):
@@ -318,6 +337,16 @@ def emit_one(v, key, how, d, entry):
             obj = parse(d, v, observable=is_obs20(key, v))
         elif entry == "parse_dict":
             obj = parse(d, v, text=False, observable=is_obs20(key, v))
+        elif entry == "container_member":
+            # a STIX 2.0 observable where it normally lives: as a member of an observed-data container (other code paths than a stand-alone observable)
+            od = {"type": "observed-data", "id": "observed-data--11111111-1111-4111-8111-111111111111", "created": "2020-01-01T00:00:00.000Z", "modified": "2020-01-01T00:00:00.000Z",
+                  "first_observed": "2020-01-01T00:00:00Z", "last_observed": "2020-01-01T00:00:00Z", "number_observed": 1, "objects": {"0": d}}
+            whole = parse(od, v)
+            out = out_json(whole)["objects"]["0"]
+            line["ok"] = True
+            line["doc"] = lex.doc(out, v, key)
+            line["output"] = out
+            return line
         else:
             import stix2.registry
             cls = stix2.registry.class_for_type(d.get("type"), v, key.split(":")[0]) if isinstance(d, dict) else None
@@ -332,7 +361,7 @@ def emit_one(v, key, how, d, entry):
     except Exception as e:  # noqa
         line["exc"] = type(e).__name__
         line["family"] = in_family(e)
-        line["msg"] = str(e)[:160]
+        line["msg"] = message_of(e, line)[:160]
     return line
 
 
@@ -348,10 +377,14 @@ def emit_lines(chk, quick, junk=True):
                 lines.append(emit_one(v, key, "valid_base", base, "parse"))
                 cs = corruptions(g, key, base, rng, quick)
                 if quick:
-                    cs = rng.sample(cs, min(len(cs), 28))
+                    always = [c for c in cs if ":ref_object" in c[0] or ":ref_text_braces" in c[0]]
+                    cs = rng.sample(cs, min(len(cs), 28)) + always
                 for how, d in cs:
                     entry = rng.choice(["parse", "parse", "constructor", "parse_dict"]) if quick else None
-                    for en in ([entry] if entry else ["parse", "constructor", "parse_dict"]):
+                    ens = [entry] if entry else ["parse", "constructor", "parse_dict"]
+                    if is_obs20(key, v) and (not quick or rng.random() < 0.5 or ":ref_" in how):
+                        ens = ens + ["container_member"]
+                    for en in ens:
                         ln = emit_one(v, key, how, d, en)
                         if ln is not None:
                             lines.append(ln)
@@ -449,6 +482,12 @@ def junk_lines(chk, quick):
             for strict in (True, False):
                 for tag in ("a", "b"):      # two tags: one lands on the named-version path, one on detection
                     lines.append(junk_one("bundle_%s_%s" % (how, tag), dict(bundle, objects=members) if members is not None else dict(bundle), v, strict))
+        # a member whose own inspected members (what version detection and dispatch read before any cleaning) are of the wrong JSON kind
+        for mk in ("type", "id", "spec_version", "extensions", "created", "modified"):
+            for wk in WRONG:
+                for tag in ("a", "b"):
+                    lines.append(junk_one("bundle_member_%s_%s_%s" % (mk, wk, tag), dict(bundle, objects=[dict(ident, **{mk: copy.deepcopy(WRONG[wk])})]), v, tag == "a"))
+                lines.append(junk_one("bundle_second_member_%s_%s" % (mk, wk), dict(bundle, objects=[ident, dict(ident, **{mk: copy.deepcopy(WRONG[wk])})]), v, True))
         od = g.instance("objects:observed-data", "max")
         od.pop("object_refs", None)
         for how, objs in (("entry_without_type", {"0": {}}), ("entry_without_type2", {"0": {"name": "foo.exe"}}), ("entry_null", {"0": None}), ("entry_string", {"0": "x"}),
@@ -506,7 +545,7 @@ def junk_one(how, d, v, strict, observable=False):
     except Exception as e:  # noqa
         line["exc"] = type(e).__name__
         line["family"] = in_family(e)
-        line["msg"] = str(e)[:160]
+        line["msg"] = message_of(e, line)[:160]
     if how.startswith("deep_nesting"):
         # what matters here is termination and the class of what escapes; the (very deep) output is not re-validated
         line["input"] = {"generated": how}
@@ -734,7 +773,7 @@ def roundtrip_lines(chk, quick):
                     line["pretty"] = []
             except Exception as e:  # noqa
                 line["exc"] = type(e).__name__
-                line["msg"] = str(e)[:160]
+                line["msg"] = message_of(e, line)[:160]
             line["text_sample"] = (text[:200] if line["exc"] == "none" else "")
             lines.append(line)
     return lines
